@@ -129,6 +129,12 @@ func genC05For(entries []string) func(t *rapid.T) c05Case {
 		if c05Framed(c.Entry) {
 			kinds = append(kinds, "prefix-only")
 		}
+		if !c05IsResponse(c.Entry) && c.Entry != "readHeader" && c.Entry != "headersFromFrame" {
+			kinds = append(kinds, "odd-name", "odd-name")
+		}
+		if c.Entry == "framed.processor" || c.Entry == "adapter.stream" || c.Entry == "simple.stream" || c.Entry == "adapter.sessions" {
+			kinds = append(kinds, "empty-frames")
+		}
 		kind := rapid.SampledFrom(kinds).Draw(t, "mut")
 		switch kind {
 		case "prefix-only":
@@ -150,6 +156,34 @@ func genC05For(entries []string) func(t *rapid.T) c05Case {
 				data = refFrame(data)
 			}
 			c.Desc = fmt.Sprintf("unknown method with a %d byte name", n)
+			c.SizeMut = true
+		case "odd-name":
+			// a well-formed message whose method / operation name is not text: continuation bytes,
+			// invalid UTF-8, NULs, of a length around the limits replies truncate names to
+			n := rapid.SampledFrom([]int{1, 2, 255, 256, 257, 258, 300, 1000, 5000}).Draw(t, "namelen")
+			fill := rapid.SampledFrom([]string{"\x80", "\xbf", "\xff", "\x00", "\xc3", "\xe2\x82", "\xf0\x9f\x98", "é", "\x80\xbfa"}).Draw(t, "namefill")
+			name := strings.Repeat(fill, n/len(fill)+1)[:n]
+			if rapid.Bool().Draw(t, "asciiPrefix") && n > 3 {
+				name = "ab" + name[2:]
+			}
+			hdrs := []KV{kv("_opid", "7"), kv("_cid", "cid-1")}
+			msg := thriftMessage(c.Proto, name, thrift.CALL, &strStruct{Name: "x_args", ID: 1, V: &val})
+			data = frameContent(hdrs, msg)
+			if c05Framed(c.Entry) {
+				data = refFrame(data)
+			}
+			c.Desc = fmt.Sprintf("method name of %d bytes made of %q", n, fill)
+			c.SizeMut = true
+		case "empty-frames":
+			// a run of empty frames (size prefix 0) before / instead of a message
+			n := rapid.SampledFrom([]int{1, 2, 3, 100, 100000, 6000000}).Draw(t, "emptyframes")
+			z := make([]byte, 4*n)
+			if rapid.Bool().Draw(t, "thenValid") {
+				data = append(z, data...)
+			} else {
+				data = z
+			}
+			c.Desc = fmt.Sprintf("%d empty frames", n)
 			c.SizeMut = true
 		case "size", "size2":
 			n := 1
